@@ -1,9 +1,10 @@
-(* Known finding F-C07-1 (C07): Segmenter.Split hands the whole range to x/text bidi, which analyses one paragraph:
-   Paragraph.SetString stops at the first paragraph separator (bidi class B) and Ordering lumps every rune behind it
-   into the last run of the first paragraph.  Witness "a\nא" (LTR paragraph direction): x/text returns the single run
-   (end 2, LeftToRight); the Hebrew letter, whose embedding level is odd when its paragraph is analysed on its own,
-   is reported in a left-to-right run.  The run list satisfies the hypothesis of the theorems (bidi_wf) and the model
-   agrees with the implementation; what fails is the reference parity (Spec.parity_ok), evaluated by the harness. *)
+(* Finding F26 (C07), FIXED in the library by a per-paragraph loop in splitByBidi.  Kept as the record of what a single
+   x/text call on the whole range gives: Paragraph.SetString stops at the first paragraph separator (bidi class B) and
+   Ordering lumps every rune behind it into the last run of the first paragraph.  Witness "a\nא" (LTR paragraph
+   direction): one x/text call returns the single run (end 2, LeftToRight); the Hebrew letter, whose embedding level is
+   odd when its paragraph is analysed on its own, would be reported in a left-to-right run.  That run list satisfies the
+   hypothesis of the theorems (bidi_wf); what fails is the reference parity (Spec.parity_ok).  With the fixed code the
+   list is [(1, LTR); (2, RTL)] (second Example). *)
 From TV Require Import Model.Itemize Spec.Itemize.
 Open Scope Z_scope.
 
@@ -23,3 +24,8 @@ Proof.
   exists w_env, w_in, w_ref. eexists. split; [reflexivity|]. split; [reflexivity|].
   split; [vm_compute; reflexivity|]. split; vm_compute; reflexivity.
 Qed.
+
+Example parity_after_fix :
+  exists runs, split_runs (mkEnv (e_text w_env) (Some [(1, false); (2, true)]) (Some 59) (fun _ => true) (fun _ => 0) false) seg_zero w_in = Ok runs
+    /\ parity_ok w_ref runs = true.
+Proof. eexists. split; vm_compute; reflexivity. Qed.
